@@ -9,6 +9,7 @@ import (
 
 	"pgregory.net/rapid"
 
+	"verif/internal/corpus"
 	"verif/internal/ev"
 	"verif/internal/gen"
 	"verif/internal/model"
@@ -194,11 +195,103 @@ func judged(c Case) *ev.Verdict {
 
 func registerAll() {
 	ev.Register("models", judged)
+	ev.Register("corpus", corpusOracle)
 }
 
 func TestPropModels(t *testing.T) {
 	registerAll()
-	ev.Rapid(t, "models", ev.N(1500, 15000), genCase, judged)
+	ev.Rapid(t, "models", ev.N(5000, 15000), genCase, judged)
+}
+
+// CorpusCase: a text of the repository's own test corpus under a context-free transformation.
+type CorpusCase struct {
+	Text      string `json:"text"`
+	Transform string `json:"transform"`
+}
+
+func transform(text, tr string) string {
+	lines := strings.Split(text, "\n")
+	switch tr {
+	case "crlf":
+		return strings.Join(lines, "\r\n")
+	case "cr":
+		return strings.Join(lines, "\r")
+	case "pad-line-ends":
+		for i := range lines {
+			lines[i] += []string{" ", "\t", "  ", ""}[i%4]
+		}
+		return strings.Join(lines, "\n")
+	case "pad-line-starts":
+		for i := range lines {
+			lines[i] = []string{"  ", "\t", " ", ""}[i%4] + lines[i]
+		}
+		return strings.Join(lines, "\n")
+	case "blank-lines-around":
+		return "\n \n" + text + "\n\t\n\n"
+	}
+	return text
+}
+
+// codes raised only after the whole text has been scanned and loaded (so that a context-free
+// re-layout cannot legitimately change which error is met first)
+func lateCode(c int) bool {
+	switch {
+	case c >= 1100 && c < 1400, c == 617, c == 618, c == 204, c >= 602 && c <= 616, c >= 700 && c < 710:
+		return true
+	}
+	return false
+}
+
+func corpusOracle(c CorpusCase) *ev.Verdict {
+	a := sut.Observe(sut.Project{Root: c.Text})
+	if len(a.Escapes) > 0 || (a.Check != nil && !lateCode(a.Check.Code)) {
+		return nil
+	}
+	if a.Check == nil && (a.AST == "" || strings.Contains(a.AST, `"TokenType":""`)) {
+		return nil // no root value
+	}
+	b := sut.Observe(sut.Project{Root: transform(c.Text, c.Transform)})
+	if len(b.Escapes) > 0 {
+		return ev.V("panic:"+b.Escapes[0].Op, "%s panicked on the transformed text: %s", b.Escapes[0].Op, b.Escapes[0].Value)
+	}
+	if what, detail := firstDiff(a, b); what != "" {
+		return ev.V("corpus:"+c.Transform+":"+what, "the corpus text %q and its %s form differ in %s", c.Text, c.Transform, detail)
+	}
+	return nil
+}
+
+func TestPropCorpus(t *testing.T) {
+	registerAll()
+	ev.KeepFirst("corpus")
+	var n, nt, bad int64
+	idx := 0
+	for _, s := range corpus.Literals() {
+		if !corpus.LooksLikeSchema(s) || strings.Contains(s, "\r") {
+			continue
+		}
+		idx++
+		if !ev.Mine(idx) {
+			continue
+		}
+		for _, tr := range []string{"crlf", "cr", "pad-line-ends", "pad-line-starts", "blank-lines-around"} {
+			c := CorpusCase{Text: s, Transform: tr}
+			n++
+			if strings.Contains(s, "\n") && strings.ContainsAny(s, "/") {
+				nt++
+				if nt%300 == 1 {
+					ev.Sample("corpus", c)
+				}
+			}
+			if v := corpusOracle(c); v != nil && ev.Report("corpus", c, v) {
+				bad++
+			}
+		}
+	}
+	ev.Count("corpus", n)
+	ev.NonTrivialEnum("corpus", nt)
+	if bad > 0 {
+		t.Errorf("VIOLATION-CANDIDATE corpus: %d", bad)
+	}
 }
 
 func TestPropRegressions(t *testing.T) {
